@@ -16,7 +16,7 @@ RespsC05 ==
      R(0, TRUE, 1, <<8>>, FALSE),
      R(0, FALSE, 0, <<>>, FALSE), R(0, FALSE, 0, <<8>>, TRUE), R(0, FALSE, 0, <<400>>, FALSE), R(0, FALSE, 0, <<0>>, FALSE),
      R(3, FALSE, 0, <<40>>, FALSE), R(3, FALSE, 0, <<8>>, FALSE), R(3, FALSE, 0, <<>>, FALSE), R(3, TRUE, 0, <<40>>, FALSE),
-     R(2, FALSE, 0, <<>>, FALSE), R(2, FALSE, 0, <<40>>, TRUE),
+     R(2, FALSE, 0, <<>>, FALSE), R(2, FALSE, 0, <<40>>, TRUE), R(2, FALSE, 0, <<3>>, FALSE),
      R(5, FALSE, 0, <<>>, FALSE), R(5, FALSE, 1, <<40>>, FALSE)}
 
 RespsC05small ==
@@ -25,6 +25,14 @@ RespsC05small ==
      R(5, FALSE, 1, <<40>>, FALSE)}
 
 RespsC10 == {R(0, FALSE, 3, <<300, 300, 300, 300, 300, 300>>, TRUE)}
+
+\* C05: answers kept longer than their own records' TTL (the clamp at 1 is reachable: elapsed = ttl, ttl + 1)
+RespsClamp == {R(3, FALSE, 0, <<8>>, FALSE), R(2, FALSE, 0, <<3>>, FALSE), R(3, FALSE, 0, <<2, 12>>, FALSE)}
+
+\* rc = -1: `next` produces no answer at all (upstream failure / a has_resp guard in the background chain)
+NoAnswer == R(-1, FALSE, 0, <<>>, FALSE)
+RespsC10L == {R(0, FALSE, 3, <<8, 8, 8, 8, 8, 8>>, TRUE), NoAnswer}
+RespsC04L == {R(0, FALSE, 1, <<8>>, FALSE)}
 
 RespsC19 == {R(0, FALSE, 1, <<8, 20>>, FALSE), R(3, FALSE, 0, <<40>>, FALSE)}
 =============================================================================
